@@ -75,6 +75,26 @@ func prioRule(c *core.Ctx, global, ctor, typ string) {
 						outside = append(outside, funcKey(fn))
 						continue
 					}
+					// the table exists when it is written: a `global = make(map...)` store precedes the update in init
+					made := false
+					for _, bb := range fn.Blocks {
+						for _, in2 := range bb.Instrs {
+							st, isS := in2.(*ssa.Store)
+							if !isS {
+								continue
+							}
+							g, isG := st.Addr.(*ssa.Global)
+							if _, isMk := st.Val.(*ssa.MakeMap); !isG || g.Name() != global || !isMk {
+								continue
+							}
+							if (bb == b && instrIndex(st) < instrIndex(x)) || (bb != b && bb.Dominates(b)) {
+								made = true
+							}
+						}
+					}
+					if !made {
+						outside = append(outside, "an entry is written in "+funcKey(fn)+" before the table has been created (a nil map: the package panics when it is initialised)")
+					}
 					k, ok1 := constInt(x.Key)
 					v, ok2 := constInt(x.Value)
 					if !ok1 || !ok2 {
